@@ -5,10 +5,12 @@ trusted primitives whose answers are the models' inputs; they are asked exactly 
 (same open() arguments, same call order).  Returns None when the file leaves what the models cover
 (gzip / SQLite containers, strings that are not encodable)."""
 import csv
+import gzip
 import io
 import json
 import os
 import sys
+import zlib
 
 GZ = b"\x1f\x8b"
 SQLITE = b"SQLite format 3\x00"
@@ -27,6 +29,20 @@ def hx(s):
         raise Unencodable("lone surrogate")
 
 
+def io_cls(e):
+    """class name of a failure of the byte stream under a text stream (gzip)"""
+    if isinstance(e, gzip.BadGzipFile):
+        return "BadGzipFile"
+    if isinstance(e, EOFError):
+        return "EOFError"
+    if isinstance(e, zlib.error):
+        return "error"
+    return "OSError"
+
+
+IO_ERRORS = (EOFError, zlib.error, OSError)
+
+
 def csv_doc(fp, with_first=True):
     """fp: a text stream opened the way the reader opens it"""
     toks = []
@@ -35,6 +51,8 @@ def csv_doc(fp, with_first=True):
             first = fp.readline()
         except UnicodeDecodeError:
             return ["E", "e", "0"]
+        except IO_ERRORS as e:
+            return ["X:" + io_cls(e), "e", "0"]
         toks.append("L" + hx(first) if first != "" else "L-")
     else:
         toks.append("L-")
@@ -52,6 +70,9 @@ def csv_doc(fp, with_first=True):
         except UnicodeDecodeError:
             tail = "d"
             break
+        except IO_ERRORS as e:
+            tail = "x:" + io_cls(e)
+            break
         rows.append(row)
     toks += [tail, str(len(rows))]
     for row in rows:
@@ -67,34 +88,88 @@ def head(path, n=16):
 
 def enc_manifest(path):
     h = head(path)
-    if h.startswith(SQLITE) or path.endswith(".gz"):
+    if h.startswith(SQLITE):
         return None
     with open(path, "rt", newline="") as fp:
         return "mf " + " ".join(csv_doc(fp))
 
 
-def enc_picklist(path, argstr):
-    h = head(path) if os.path.isfile(path) else b""
-    if h.startswith(GZ):
+def enc_manifest_file(path):
+    """CollectionManifest.load_from_filename: SQLite probe, then the NAME picks gzip.open or open"""
+    from sourmash import sqlite_utils
+    try:
+        conn = sqlite_utils.open_sqlite_db(path)
+    except Exception as e:  # noqa: BLE001
         return None
+    if conn is not None:
+        conn.close()
+        return None
+    with open(path, "rt", newline="") as fp:
+        plain = csv_doc(fp)
+    try:
+        with gzip.open(path, "rt", newline="") as fp:
+            gz = csv_doc(fp)
+    except IO_ERRORS as e:
+        gz = ["X:" + io_cls(e), "e", "0"]
+    return " ".join(["mff", hx(os.path.basename(path)), "n"] + plain + gz)
+
+
+def _peek_flags(fp):
+    import codecs
+    chunk = fp.buffer.peek(1)
+    # both decodings of the peeked chunk the source has had (the model picks the one the translator finds)
+    try:
+        ch = chunk.decode("utf-8")
+        strict_ok = True
+    except UnicodeDecodeError:
+        ch = None
+        strict_ok = False
+    try:
+        ch2 = codecs.getincrementaldecoder("utf-8")().decode(chunk)
+        incr_ok = True
+    except UnicodeDecodeError:
+        ch2 = None
+        incr_ok = False
+    first = ch if ch is not None else (ch2 or "")
+    return strict_ok, incr_ok, first.startswith("#")
+
+
+def enc_picklist(path, argstr):
     is_file = os.path.exists(path) and os.path.isfile(path)
     toks = ["pl", hx(argstr), "1" if is_file else "0"]
     if not is_file:
-        return " ".join(toks + ["1", "0", "L-", "e", "0", "L-", "e", "0"])
-    with open(path, newline="", encoding="utf-8") as fp:
-        ch = fp.buffer.peek(1)
-        try:
-            ch = ch.decode("utf-8")
-            peek_ok = True
-        except UnicodeDecodeError:
-            ch = ""
-            peek_ok = False
-        starts_hash = ch.startswith("#")
+        return " ".join(toks + ["-", "1", "1", "0", "L-", "e", "0", "L-", "e", "0"])
+    # FileInputCSV: gzip first; BadGzipFile at the probe means "a regular file"
+    is_gz = False
+    sniff = "-"
+    try:
+        with gzip.open(path, "rt", newline="", encoding="utf-8") as fp:
+            fp.buffer.peek(1)
+            is_gz = True
+    except gzip.BadGzipFile:
+        pass
+    except IO_ERRORS as e:
+        sniff = io_cls(e)
+    if sniff != "-":
+        return " ".join(toks + [sniff, "1", "1", "0", "L-", "e", "0", "L-", "e", "0"])
+
+    def opened():
+        if is_gz:
+            fp = gzip.open(path, "rt", newline="", encoding="utf-8")
+            fp.buffer.peek(1)
+            return fp
+        return open(path, newline="", encoding="utf-8")
+    with opened() as fp:
+        strict_ok, incr_ok, starts_hash = _peek_flags(fp)
         rest = csv_doc(fp)
-    with open(path, newline="", encoding="utf-8") as fp:
+    with opened() as fp:
         fp.buffer.peek(1)          # same buffer state as in _DictReader_with_version (decides the decoder's chunking)
         whole = csv_doc(fp, with_first=False)
-    return " ".join(toks + ["1" if peek_ok else "0", "1" if starts_hash else "0"] + rest + whole)
+    if is_gz and any(tok == "x:BadGzipFile" or tok == "X:BadGzipFile" for tok in rest[:2] + whole[:2]):
+        # a BadGzipFile raised while the caller iterates is thrown back into FileInputCSV's generator, which then
+        # falls through to its "regular file" branch: control flow of contextlib, not modelled
+        return None
+    return " ".join(toks + ["-", "1" if strict_ok else "0", "1" if incr_ok else "0", "1" if starts_hash else "0"] + rest + whole)
 
 
 def enc_json(x, out):
@@ -203,65 +278,126 @@ def _mkdir_pred(dirname, sub):
     return "-"
 
 
+KNOWN_CLS = {"ValueError", "TypeError", "KeyError", "AttributeError", "IndexError", "OverflowError", "AssertionError", "SyntaxError",
+             "MemoryError", "RecursionError", "UnicodeDecodeError", "IndexNotSupported", "IndexNotLoaded", "FileNotFoundError",
+             "IsADirectoryError", "NotADirectoryError", "OSError", "ModuleNotFoundError", "Exception", "DatabaseError", "OperationalError",
+             "Panic", "SourmashError", "JSONDecodeError", "EOFError", "BadGzipFile", "Io", "Internal", "Msg", "Unknown", "Utf8Error",
+             "SerdeError", "StorageError"}
+
+
 def enc_sbt(path):
-    """`path` is a plain `<name>.sbt.json` (SBT.load without storage, not a zip)"""
+    """SBT.load(path) without a storage argument: a `<name>.sbt.json`, or a zip collection (`*.sbt.zip`)"""
     import importlib.util
+    import tempfile
+    from sourmash.sbt_storage import ZipStorage
     dirname = os.path.dirname(os.path.abspath(path))
     sbt_name = os.path.basename(path)
     if sbt_name.endswith(".sbt.json"):
         sbt_name = sbt_name[:-9]
+    # --- where the description comes from (the first step of SBT.load, call for call)
+    zip_tok, open_tok = "-", "-"
+    storage = None
+    tree_data = None
     try:
-        fp = open(path)
-    except OSError:
-        return None
-    with fp:
-        toks, doc = dec_tokens(fp)
+        if ZipStorage.can_open(path):
+            storage = ZipStorage(path)
+        elif not path.endswith(".sbt.zip") and ZipStorage.can_open(path + ".sbt.zip"):
+            storage = ZipStorage(path + ".sbt.zip")
+        if storage:
+            sbts = storage.list_sbts()
+            zip_tok = f"m{len(sbts)}"
+            if len(sbts) == 1:
+                tree_data = storage.load(sbts[0])
+    except Exception as e:  # noqa: BLE001   native storage failures are inputs of the model
+        name = type(e).__name__
+        if name not in KNOWN_CLS:
+            return None
+        zip_tok = "r:" + name
+    toks, doc = ["J"], None
+    if not zip_tok.startswith("r:"):
+        tmp = None
+        if tree_data is not None:
+            tmp = tempfile.NamedTemporaryFile()
+            tmp.write(tree_data)
+            tmp.flush()
+            sbt_fn = tmp.name
+        else:
+            sbt_fn = os.path.join(dirname, sbt_name)
+            if not sbt_fn.endswith(".sbt.json"):
+                sbt_fn += ".sbt.json"
+        try:
+            fp = open(sbt_fn)
+        except OSError as e:
+            open_tok = type(e).__name__
+            if open_tok not in KNOWN_CLS:
+                return None
+            fp = None
+        if fp is not None:
+            with fp:
+                toks, doc = dec_tokens(fp)
+        if tmp is not None:
+            tmp.close()
     mkdir = "-"
     sample = "n"
     mf = ["n"]
     subdir = None
+    if storage is None:
+        try:
+            v = doc.get("version") if isinstance(doc, dict) else 1
+            if isinstance(v, (int, float)) and not isinstance(v, bool) and v < 3 or v is True:
+                subdir = f".sbt.{sbt_name}"
+            else:
+                p = doc["storage"]["args"]["path"]
+                if isinstance(p, str) and doc["storage"]["backend"] == "FSStorage":
+                    mkdir = _mkdir_pred(dirname, p)
+                    subdir = p
+        except (KeyError, TypeError, AttributeError):
+            pass
+        try:
+            first = None
+            if isinstance(doc, list):
+                first = doc[0]
+            elif isinstance(doc, dict):
+                for k, val in doc["nodes"].items():
+                    if int(k) == 0:
+                        first = val
+            if isinstance(first, dict) and isinstance(first.get("filename"), str):
+                sample = _fs_state(os.path.join(dirname, first["filename"]))
+                if sample.startswith("u:"):
+                    sample = "n"
+        except (KeyError, TypeError, AttributeError, ValueError, IndexError):
+            pass
     try:
-        v = doc.get("version") if isinstance(doc, dict) else 1
-        if isinstance(v, (int, float)) and not isinstance(v, bool) and v < 3 or v is True:
-            subdir = f".sbt.{sbt_name}"
-        else:
-            p = doc["storage"]["args"]["path"]
-            if isinstance(p, str) and doc["storage"]["backend"] == "FSStorage":
-                mkdir = _mkdir_pred(dirname, p)
-                subdir = p
-    except (KeyError, TypeError, AttributeError):
-        pass
-    try:
-        first = None
-        if isinstance(doc, list):
-            first = doc[0]
-        elif isinstance(doc, dict):
-            for k, val in doc["nodes"].items():
-                if int(k) == 0:
-                    first = val
-        if isinstance(first, dict) and isinstance(first.get("filename"), str):
-            sample = _fs_state(os.path.join(dirname, first["filename"]))
-            if sample.startswith("u:"):
-                sample = "n"
-    except (KeyError, TypeError, AttributeError, ValueError, IndexError):
-        pass
-    try:
-        if isinstance(doc, dict) and isinstance(doc.get("manifest_path"), str) and subdir is not None:
-            full = os.path.join(dirname, subdir, doc["manifest_path"])
-            st = _fs_state(full)
-            if st == "e":
-                data = open(full, "rb").read()
+        if isinstance(doc, dict) and isinstance(doc.get("manifest_path"), str):
+            if storage is not None:
                 try:
-                    text = data.decode("utf-8")
+                    data = storage.load(doc["manifest_path"])
+                except FileNotFoundError:
+                    data = None
+                    mf = ["n"]
+                except Exception as e:  # noqa: BLE001
+                    data = None
+                    if type(e).__name__ not in KNOWN_CLS:
+                        return None
+                    mf = ["u:" + type(e).__name__]
+            elif subdir is not None:
+                full = os.path.join(dirname, subdir, doc["manifest_path"])
+                st = _fs_state(full)
+                data = open(full, "rb").read() if st == "e" else None
+                if data is None:
+                    mf = [st]
+            else:
+                data = None
+            if data is not None:
+                try:
+                    text = bytes(data).decode("utf-8")
                     mf = ["c"] + csv_doc(io.StringIO(text))
                 except UnicodeDecodeError:
                     mf = ["x"]
-            else:
-                mf = [st]
     except (KeyError, TypeError, AttributeError):
         pass
     net = importlib.util.find_spec("redis") is not None or importlib.util.find_spec("ipfshttpclient") is not None
-    return " ".join(["sbt"] + toks + [mkdir, sample, "1" if net else "0"] + mf)
+    return " ".join(["sbt", zip_tok, open_tok] + toks + [mkdir, sample, "1" if net else "0"] + mf)
 
 
 def mro_names(e):
